@@ -102,7 +102,7 @@ impl Scenario for Diag {
     fn runs(&self, tier: Tier) -> u64 {
         match tier {
             Tier::Quick => 2_000,
-            Tier::Thorough => 60_000,
+            Tier::Thorough => 300_000,
         }
     }
     fn shrink_paths(&self) -> Vec<&'static str> {
